@@ -137,12 +137,46 @@ def run(c):
     fexe = c.build_harness("h_fdtrace")
     fdir = c.tmpdir("fdtrace")
     trp = os.path.join(fdir, "trace.txt")
-    pr = subprocess.run(["strace", "-o", trp, "-e", "trace=close,write,socketpair,pipe2,openat,dup,dup3,eventfd2,memfd_create", "-s", "64", fexe],
+    pr = subprocess.run(["strace", "-o", trp, "-e", "trace=close,read,write,socketpair,pipe2,openat,dup,dup3,eventfd2,memfd_create", "-s", "64", fexe],
                         env=dict(env, VERIF_SCRATCH=fdir), stdout=subprocess.PIPE, stderr=subprocess.PIPE, timeout=300)
     if pr.returncode != 0 or not os.path.exists(trp):
         raise RuntimeError("h_fdtrace under strace: rc %d %s" % (pr.returncode, pr.stderr.decode(errors="replace")[-300:]))
+    # configuration and outcome of every start of h_fdtrace, in the terms of Launch/ParentFds.v:
+    # (userns, syncf, early), (clone_err, mfail, child_bad, refuse, late_err)
+    FD_CASES = {"ok": ((0, 0, 0), (0, "MNone", 0, 0, 0)), "ok_sync": ((0, 1, 0), (0, "MNone", 0, 0, 0)), "enoent": ((0, 0, 0), (0, "MNone", 0, 0, 1)),
+                "enoent_sync": ((0, 1, 0), (0, "MNone", 0, 0, 1)), "enoexec": ((0, 0, 0), (0, "MNone", 0, 0, 1)), "etxtbsy": ((0, 0, 0), (0, "MNone", 0, 0, 1)),
+                "chdir": ((0, 0, 0), (0, "MNone", 0, 0, 1)), "chdir_sync": ((0, 1, 0), (0, "MNone", 1, 0, 0)), "refuse": ((0, 1, 0), (0, "MNone", 0, 1, 0)),
+                "badfile": ((0, 0, 0), (0, "MNone", 0, 0, 1)), "userns": ((1, 0, 0), (0, "MNone", 0, 0, 0)), "userns_enoent": ((1, 0, 0), (0, "MNone", 0, 0, 1)),
+                "userns_badmap": ((1, 0, 0), (0, "MWriteFails 0", 0, 0, 1)), "userns_refuse": ((1, 1, 0), (0, "MNone", 0, 1, 0)),
+                "ns_enoent": ((0, 0, 0), (0, "MNone", 0, 0, 1)), "seccomp_enoent": ((0, 0, 0), (0, "MNone", 0, 0, 1)), "ptrace_enoent": ((0, 0, 0), (0, "MNone", 0, 0, 1)),
+                "ptrace_chdir": ((0, 0, 1), (0, "MNone", 0, 0, 0)), "ok_again": ((0, 0, 0), (0, "MNone", 0, 0, 0))}
+    MAPFILE = {"uid_map": 2, "setgroups": 3, "gid_map": 4}
+    fd_items, fd_names, evs, nameof = [], [], [], {}
+
+    def fd_flush(name):
+        if name in FD_CASES:
+            (u, sy, ea), (ce, mf, cb, rf, le) = FD_CASES[name]
+            bb = lambda v: "true" if v else "false"
+            fd_items.append("({| userns := %s; syncf := %s; early := %s |}, {| clone_err := %s; mfail := %s; child_bad := %s; refuse := %s; late_err := %s |}, %s)" % (
+                bb(u), bb(sy), bb(ea), bb(ce), mf, bb(cb), bb(rf), bb(le), "[" + "; ".join(evs) + "]"))
+            fd_names.append(name)
     cur, held, ncases = None, set(), 0
     for ln in open(trp, errors="replace"):
+        if cur is not None and not ln.startswith("write(-1,"):
+            m = re.match(r'socketpair\(.*\[(\d+), (\d+)\]\) = 0', ln)
+            if m:
+                nameof[int(m.group(1))], nameof[int(m.group(2))] = 0, 1
+                evs.append("ECreate2 0 1")
+            m = re.match(r'openat\(.*"/proc/\d+/(uid_map|setgroups|gid_map)".*\) = (\d+)', ln)
+            if m:
+                nameof[int(m.group(2))] = MAPFILE[m.group(1)]
+                evs.append("EOpen %d" % MAPFILE[m.group(1)])
+            m = re.match(r'(read|write)\((\d+),.*\)\s+= (.*)', ln)
+            if m and int(m.group(2)) in nameof and "EINTR" not in m.group(3) and "ERESTART" not in m.group(3):
+                evs.append("EUse %d" % nameof[int(m.group(2))])
+            m = re.match(r'close\((\d+)\)', ln)
+            if m:
+                evs.append("EClose %d" % nameof.get(int(m.group(1)), 99))
         m = re.match(r'write\(-1, "case:(end:)?(\w+)"', ln)
         if m:
             if m.group(1):
@@ -150,9 +184,10 @@ def run(c):
                 if held and not cur.startswith("ptrace_chdir"):
                     c.finding_or_violation({"kind": "launcher-descriptors", "what": "a start leaves descriptors it created open in the launching process", "start": cur},
                                            {"start": cur, "left_open": sorted(held), "trace": trp}, klass="fd-leak")
+                fd_flush(cur)
                 cur = None
             else:
-                cur, held = m.group(2), set()
+                cur, held, evs, nameof = m.group(2), set(), [], {}
                 ncases += 1
                 c.count(("fdtrace", cur), nontrivial=True, klass="fdtrace")
             continue
@@ -176,6 +211,16 @@ def run(c):
     if ncases < 15:
         raise RuntimeError("fdtrace: only %d starts found in the trace" % ncases)
     c.cov["starts_traced_close_by_close"] = ncases
+    # the traced events of every start against Launch/ParentFds.parent_events of its configuration and outcome, evaluated in Coq
+    from vlib import coq_list
+    body = ("From Coq Require Import List.\nImport ListNotations.\nFrom GS Require Import Launch.ParentFds Launch.EvalParentFds.\n"
+            "Definition cs : list (cfg * outcome * list ev) := %s.\nDefinition M := Eval vm_compute in failing start_ok cs.\nPrint M.\n" % coq_list(fd_items))
+    fdbad = c.parse_nums(c.parse_printed(c.coq_eval("parentfds", body), "M").replace("%N", ""))
+    c.cov["starts_compared_with_parent_events_in_coq"] = len(fd_items)
+    if fdbad:
+        c.violation({"kind": "correspondence-broken", "theorems_no_longer_about_the_code": [t for t in c.theorems if "start" in t or "discipl" in t or "foreign" in t],
+                     "disagreements": [{"relation": "start_ok (descriptor events of the launching thread = parent_events)", "start": fd_names[i], "item": fd_items[i]} for i in fdbad]},
+                    no_input=True)
     c.sample({"workloads": cases[0]["workloads"][:6], "alone": [dict(a) for a in (obs[0].get("alone") or [])[:6] if a],
               "among_others": [dict(a) for a in (obs[0].get("together") or [])[:6] if a]})
     c.cov["sets"] = nset
